@@ -10,6 +10,8 @@ Decided structural clauses:
  D6 only data that went through the out-of-range removal is classified
  D7 unlabelled samples are set aside: the first component returned by split_without_labels is the unlabelled part, and both
     consumers (learning initialisation, test_data) treat the first component as omitted and classify / learn on the second
+ D8 the density evaluation memoises hat supports only for as long as everything the memoised value depends on stays fixed: a memo
+    table whose values depend on more than its key (here: on the component grid's mesh) is created inside the call that uses it
 Not decided: that the arg-max index is the label, correctness of the densities."""
 import ast
 
@@ -293,6 +295,8 @@ def run(prog, ctx):
 
     # ------------------------------------------------------------------ D7
     check_unlabelled_set_aside(prog, ctx)
+    # ------------------------------------------------------------------ D8
+    check_memo_lifetime(prog, ctx)
 
     # ------------------------------------------------------------------ D6
     n6 = 0
@@ -315,6 +319,7 @@ def run(prog, ctx):
     rms = R.calls_in(isc.node, method="remove_samples")
     withv, bare, fall = R.return_paths(isc)
     ok = len(rms) >= 1 and bool(withv) and not bare and not fall
+    quant_msg = ""
     if ok:
         c = cfg_of(isc)
         rmn = R.cfg_node(isc, rms[0])
@@ -329,9 +334,57 @@ def run(prog, ctx):
         highs = [x for x in cmps if x[2][0] == "c" and x[3][0] != "c"]     # c < y
         if not (lows and highs):
             ok = False
+        # ... and each side quantifies correctly over the components of the sample: below the range if ANY component (or the
+        # minimum) is below the lower threshold, above if ANY component (or the maximum) is above the upper one
+        found = []
+
+        def quant(t, q):
+            if not isinstance(t, tuple) or not t:
+                return
+            if t[0] == "call" and t[1] in (("n", "any"), ("a", ("n", "np"), "any")):
+                for x in t[2]:
+                    quant(x, "any")
+                return
+            if t[0] == "call" and t[1] in (("n", "all"), ("a", ("n", "np"), "all")):
+                for x in t[2]:
+                    quant(x, "all")
+                return
+            if t[0] == "not":
+                quant(t[1], {"any": "all", "all": "any"}.get(q, q))
+                return
+            if t[0] == "cmp" and t[1] in ("Lt", "LtE"):
+                side = "low" if (t[3][0] == "c" and t[2][0] != "c") else "high" if (t[2][0] == "c" and t[3][0] != "c") else None
+                o = t[2] if side == "low" else t[3]
+                if side is not None:
+                    agg = q
+                    if o[0] == "call" and (o[1] in (("n", "min"), ("a", ("n", "np"), "min"), ("a", ("n", "np"), "amin"))
+                                           or (o[1][0] == "a" and o[1][2] == "min")):
+                        agg = "min"
+                    elif o[0] == "call" and (o[1] in (("n", "max"), ("a", ("n", "np"), "max"), ("a", ("n", "np"), "amax"))
+                                             or (o[1][0] == "a" and o[1][2] == "max")):
+                        agg = "max"
+                    found.append((side, agg))
+                return
+            for x in t:
+                quant(x, q)
+        pred = idx[3][0][2] if idx[0] == "comp" and idx[3] and idx[3][0][2] else ()
+        connective_ok = True
+        for x in pred:
+            quant(x, None)
+            if x[0] == "bool" and x[1] != "or":
+                connective_ok = False
+        if len(pred) > 1:
+            connective_ok = False                      # several `if` clauses are a conjunction
+        if found:
+            if not all(a in ("any", "min") for (sd, a) in found if sd == "low") or not all(a in ("any", "max") for (sd, a) in found if sd == "high"):
+                ok = False
+                quant_msg = "; the comparisons quantify as %s (required: below if ANY component / the minimum is below, above if ANY component / the maximum is above)" % found
+            if not connective_ok:
+                ok = False
+                quant_msg = "; the two range tests are not joined by `or`"
     ctx.check(ok, "C19.D6", R.key_of(isc, "out-of-range-removal"), isc.loc(rms[0]) if rms else isc.loc(),
               "every returned data set had its samples below/above the learned range removed",
-              "_internal_scaling does not remove both the samples below and above the learned range from the data it returns on every path")
+              "_internal_scaling does not remove both the samples below and above the learned range from the data it returns on every path" + quant_msg)
 
 
 def check_unlabelled_set_aside(prog, ctx):
@@ -390,3 +443,66 @@ def check_unlabelled_set_aside(prog, ctx):
         ctx.check(ok, "C19.D7", R.key_of(fi, "unlabelled-set-aside"), fi.loc(),
                   "the unlabelled part goes to the omitted data, the labelled part is learned from / classified",
                   "%s: %s" % (fi.name, why))
+
+
+def _names(node):
+    return {x.id for x in ast.walk(node) if isinstance(x, ast.Name)}
+
+
+def check_memo_lifetime(prog, ctx):
+    """Memo idiom  `C[k] if k in C else E`  /  `if k in C: ... else: ... C[k] = E`  in the density evaluation
+    (MachineLearning.interpolate_points_component_grid and overrides).  Let free(E) be the names E reads besides the key and self.
+    The table C must not outlive any of them: C is a fresh local dict created in this call, and no name of free(E) is re-assigned
+    in a loop that encloses the use but not the creation of C."""
+    ml = prog.cls("GridOperation.MachineLearning")
+    n = 0
+    for fi in prog.overrides(ml, "interpolate_points_component_grid"):
+        ctx.touch(fi)
+        loops = [l for l in walk_local(fi.node) if isinstance(l, (ast.For, ast.While))]
+        comp_bound = {}
+        for x in walk_local(fi.node):
+            if isinstance(x, (ast.ListComp, ast.GeneratorExp, ast.SetComp, ast.DictComp)):
+                for g in x.generators:
+                    for t in ast.walk(g.target):
+                        if isinstance(t, ast.Name):
+                            comp_bound[t.id] = g.iter
+        for x in walk_local(fi.node):
+            if not (isinstance(x, ast.IfExp) and isinstance(x.test, ast.Compare) and len(x.test.ops) == 1
+                    and isinstance(x.test.ops[0], (ast.In, ast.NotIn))):
+                continue
+            table = x.test.comparators[0]
+            key = x.test.left
+            hit, miss = (x.body, x.orelse) if isinstance(x.test.ops[0], ast.In) else (x.orelse, x.body)
+            if not (isinstance(hit, ast.Subscript) and ast.dump(hit.value) == ast.dump(table) and ast.dump(hit.slice) == ast.dump(key)):
+                continue
+            n += 1
+            free = _names(miss) - _names(key) - {fi.self_name}
+            free = {v for v in free if v in fi.params or any(isinstance(y, ast.Name) and y.id == v and isinstance(y.ctx, ast.Store) for y in walk_local(fi.node))}
+            problems = []
+            if not isinstance(table, ast.Name):
+                if free:
+                    problems.append("the table `%s` lives on the instance but the memoised value `%s` also depends on %s, which is not part of the key `%s`"
+                                    % (src(table), src(miss), sorted(free), src(key)))
+            else:
+                creations = [st for st in walk_local(fi.node) if isinstance(st, ast.Assign) and any(isinstance(t, ast.Name) and t.id == table.id for t in st.targets)]
+                fresh = [st for st in creations if (isinstance(st.value, ast.Dict) and not st.value.keys)
+                         or (isinstance(st.value, ast.Call) and isinstance(st.value.func, ast.Name) and st.value.func.id in ("dict", "OrderedDict", "defaultdict") and not st.value.args)]
+                if table.id in fi.params or not creations or len(fresh) != len(creations):
+                    if free:
+                        problems.append("the table `%s` is not a dict created in this call (%s) but the memoised value `%s` also depends on %s, which is not part of the key `%s`"
+                                        % (table.id, [src(st) for st in creations] or "parameter / outer name", src(miss)[:80], sorted(free), src(key)))
+                else:
+                    for cr in fresh:
+                        for l in loops:
+                            inside = any(y is x for y in ast.walk(l))
+                            creates_inside = any(y is cr for y in ast.walk(l))
+                            if inside and not creates_inside:
+                                varying = {y.id for y in ast.walk(l) if isinstance(y, ast.Name) and isinstance(y.ctx, ast.Store)} & free
+                                if varying:
+                                    problems.append("the memoised value depends on %s, re-assigned in the loop at line %d that the table `%s` (line %d) survives"
+                                                    % (sorted(varying), l.lineno, table.id, cr.lineno))
+            ctx.check(not problems, "C19.D8", R.key_of(fi, "memo-lifetime:%s" % src(table)), fi.loc(x),
+                      "memo table `%s` keyed by `%s` lives no longer than the other inputs %s of its values" % (src(table), src(key), sorted(free)),
+                      "; ".join(problems))
+    ctx.note("C19.D8", "GridOperation.MachineLearning.interpolate_points_component_grid::memo-tables", "sparseSpACE/GridOperation.py",
+             "%d memo idiom(s) analysed" % n)
